@@ -71,6 +71,17 @@ pub open spec fn handlers_for<C: ServerContext>(n: HttpRouterNode<C>, method: St
 pub open spec fn served_for_some_method<C: ServerContext>(n: HttpRouterNode<C>, version: Option<&Version>) -> bool {
     exists|k: String| #[trigger] n.methods@.contains_key(k) && first_match(n.methods@[k]@, version) is Some
 }
+/// The requests on which F5 shows: the path ends at a shadowed node AND that node's own endpoints matter to the
+/// answer -- either one of them should serve the request, or (no endpoint of the node or of its wildcard child
+/// serves it) the node's own methods should count for the 404/405 decision and the Allow list.  Every other request
+/// that ends at a shadowed node (e.g. one that the wildcard child serves with an empty remainder) is NOT excepted.
+pub open spec fn f5_exception<C: ServerContext>(n0: HttpRouterNode<C>, m: String, version: Option<&Version>) -> bool {
+    shadowed_by_wildcard(n0) && (
+        first_match(handlers_for(n0, m), version) is Some
+        || (first_match(handlers_for(end_step(n0, Map::empty()).0, m), version) is None && served_for_some_method(n0, version))
+    )
+}
+
 /// C04: "exactly the methods for which that path is served at that version"
 pub open spec fn method_served<C: ServerContext>(n: HttpRouterNode<C>, version: Option<&Version>, t: Seq<char>) -> bool {
     exists|k: String| #[trigger] n.methods@.contains_key(k) && k@ == t && first_match(n.methods@[k]@, version) is Some
